@@ -78,14 +78,33 @@ def _layer2(rep, tier):
                     key = (name, type(ex).__name__)
                     fails.setdefault(key, {"function": name, "args": [repr(a)[:60] for a in args], "raised": f"{type(ex).__name__}: {str(ex)[:80]}",
                                            "at": f"{os.path.basename(tb.filename)}:{tb.name}", "declared": [c.__name__ for c in allowed]})
+    # string -> value conversions: every short text over the alphabet of number / duration / timestamp spellings
+    alpha = ["0", "1", "9", ".", "-", "+", "e", "h", "m", "s", "u", "n", "T", "Z", ":", " ", "x", "t"]
+    nconv = 0
+    for name in ("duration", "timestamp", "int", "uint", "double", "bool", "bytes", "string"):
+        fn = ev.base_functions[name]
+        allowed = R.FUNCTION_ENVELOPE + (ev.CELEvalError,)
+        for k in range(0, (5 if tier == "thorough" else 4)):
+            for t in itertools.product(alpha, repeat=k):
+                text = ct.StringType("".join(t))
+                nconv += 1
+                try:
+                    fn(text)
+                except allowed:
+                    pass
+                except Exception as ex:
+                    key = (name, type(ex).__name__)
+                    fails.setdefault(key, {"function": name, "args": [repr(text)], "raised": f"{type(ex).__name__}: {str(ex)[:80]}", "at": "conversion of a short text",
+                                           "declared": [c.__name__ for c in allowed]})
+    n += nconv
     rep.bounded.append({"function": "every entry of celpy.evaluation.base_functions against its declared raise envelope", "cases": n, "distinct_nontrivial": n,
-                        "failures": len(fails), "bound": f"{len(VALUES)} boundary values of 13 kinds; all 1- and 2-argument calls, sampled 3-argument calls"})
+                        "failures": len(fails), "bound": f"{len(VALUES)} boundary values of 13 kinds; all 1- and 2-argument calls, sampled 3-argument calls; the conversions on every text of up to 3 (thorough: 4) symbols of an 18-symbol number/duration/timestamp alphabet"})
     return list(fails.values())
 
 
 # ------------------------------------------------------------------ whole programs, both runners
 ATOMS = ["1", "-1", "0", "9223372036854775807", "-9223372036854775808", "1u", "0u", "18446744073709551615u", "18446744073709551616u", "9223372036854775808", "-9223372036854775809.0", "9223372036854775808.0", "1.5", "0.0", "1e308", "1e999",
-         '"a"', '""', '"1"', 'b"a"', r'b"Ā"', r'b"\U00000041"', r'b"\xff"', r'"\U0001F431"', r'"\U00110000"', r'"\ud800"', "true", "false", "null", "[]", "[1]", '[1, "a"]', "[[1]]", "{}", '{"a": 1}', "{1: 2}",
+         '"a"', '""', '"1"', 'b"a"', r'b"Ā"', r'b"\U00000041"', r'b"\xff"', r'"\U0001F431"', r'"\U00110000"', r'"\UFFFFFFFF"', r'b"\UFFFFFFFF"', r'"\ud800"', "true", "false", "null", "[]", "[1]", '[1, "a"]', "[[1]]", "{}", '{"a": 1}', "{1: 2}",
          "{[1]: 2}", "{1.5: 1}", "{null: 1}", "{1: 2, 1: 3}", '{"a": 1/0}', "[1/0]", 'timestamp("2020-01-01T00:00:00Z")', 'timestamp("0001-01-01T00:00:00Z")', 'timestamp("9999-12-31T23:59:59Z")',
          'duration("1s")', 'duration("-1s")', "int", "type(1)", "vi", "vs", "vl", "vm", "vn", "vb", "vd", "vby", "vts", "vdur", "vmissing", "vu", '"+14:00"', '"America/Nowhere"', '"("',
          '"999999999999h"', "9999999999999", "x", "T{a: 1}", "T{a: 1, a: 2}", "vm{a: 1}", "a.b.c", ".vi", ".vmissing", "vmn", "vmn.n", '{"a": null}.a', '{"f": null}', "vm.k", "vm.nokey"]
